@@ -150,8 +150,11 @@ func withSamples(base *inputSet, tier string, extras ...*inputSet) *inputSet {
 		if len(e.list) > max {
 			step = (len(e.list) + max - 1) / max
 		}
-		for i := 0; i < len(e.list); i += step {
-			base.add("sample-of-property-streams", e.list[i])
+		for i := 0; i < len(e.list); i++ {
+			// small hand-written streams (boundary values, overflow cases, ...) are taken whole
+			if i%step == 0 || e.hist[e.src[i]] <= 600 {
+				base.add("sample-of-property-streams", e.list[i])
+			}
 		}
 	}
 	return base
